@@ -37,6 +37,23 @@ CLAIMED = {
          "the module). Second text bytes 01h..1Fh are undefined and not judged.",
     technique="TLA+ transcription of the CEA-608 code space checked exhaustively by TLC + exhaustive trace validation of all 65 536 words",
     design_ref="6/C17"),
+  "C15": dict(
+    level="model_checking",
+    text="spec/Model.tla specifies the canonical-model API as a state machine over a fixed universe of elements (one action "
+         "per API call with an accept/reject guard and an effect; WellFormed = link agreement, acyclicity, one owner per tree, "
+         "content model incl. ruby/rtc patterns, region references = registered objects). TLC explores three focused "
+         "universes exhaustively (tree operations; two documents with two regions sharing an id; ruby patterns) and checks "
+         "WellFormed and 'rejected => unchanged' on every transition. Spec -> code: every state of those graphs (a seeded "
+         "sample in the quick tier) is rebuilt on real objects and every operation of the configuration is applied to it - one "
+         "implementation test per edge. Code -> spec: seeded random histories of 40 calls on a 22-element universe with "
+         "valid and invalid arguments and style/animation/initial values. spec/Trace_Model.tla validates every recorded call: "
+         "WellFormed and agreeing link views after every call, rejected single-element call => model unchanged, only "
+         "catalogue-valid values stored.",
+    note="Trusted: TLC; the projection through public getters (bounded sibling walks); the hand-typed catalogue of valid/invalid "
+         "style values; the builder that reconstructs model states with the base-class push_child. The exact effect of an "
+         "accepted call is compared with the contract but only counted (the property states well-formedness, not effects).",
+    technique="TLA+ state machine of the model API model-checked with TLC; every edge replayed into the code; recorded histories validated against the spec",
+    design_ref="6/C15"),
 }
 
 NOT_YET = "check not built yet in this round; see DESIGN.md section 6 for the planned TLA+ specification"
